@@ -28,6 +28,7 @@ CONSTANTS
   Axes,         \* set of axis values tried
   Targets,      \* set of pad targets
   CombNs,       \* set of n for combinations
+  ReduceArgs,   \* set of [r, mask, kd] records applied by the Reduce action
   EmitOn        \* BOOLEAN: export transitions as JSON cases
 
 VARIABLES cur, aux, phase, last
@@ -173,7 +174,13 @@ CombOp ==
        Case("comb", [axis |-> ax, n |-> k, repl |-> repl],
             IF k < 1 THEN Err ELSE VAxisOp([n |-> "comb", k |-> k, repl |-> repl], V, T, ax))
 
-Operate == Validity \/ ToListOp \/ SliceOp \/ NumOp \/ LocalIndexOp \/ FlattenOp \/ PadOp \/ CombOp
+ReduceOp ==
+  /\ OpReady("reduce")
+  /\ \E a \in ReduceArgs : \E ax \in Axes :
+       Case("reduce", [reducer |-> a.r, axis |-> ax, mask |-> a.mask, keepdims |-> a.kd],
+            VReduce(V, T, a.r, ax, a.mask, a.kd))
+
+Operate == ReduceOp \/ Validity \/ ToListOp \/ SliceOp \/ NumOp \/ LocalIndexOp \/ FlattenOp \/ PadOp \/ CombOp
 
 Next == Build \/ Operate
 Spec == Init /\ [][Next]_vars
